@@ -140,5 +140,5 @@ def _parse(r):
 
 def must_be_clean(r, what):
     if r.error is not None or (r.rc != 0 and not r.violated):
-        raise MachineryError("TLC failed on %s (rc=%s):\n%s" % (what, r.rc, (r.error or r.out[-3000:])))
+        raise MachineryError("TLC failed on %s (rc=%s):\n%s" % (what, r.rc, ((r.error or "") + "\n" + r.out[-2500:])))
     return r
